@@ -64,8 +64,8 @@ func genLockFactsImpl(repo string, root *pkg) {
 		fmt.Fprintf(&b, "/-- %s -/\ndef %s : Bool := %v\n", doc, name, v)
 	}
 	bl("listStateOnlyUnderLock", f.listStateOnlyUnderLock, "every function touching eventList.seqs/events/lastSeq/hasLast is an eventList method that starts with `l.Lock(); defer l.Unlock()` or is called only from such methods")
-	bl("closedOnlyAtomic", f.closedOnlyAtomic, "Reassembler.closed is only ever used as `&r.closed` in a sync/atomic call")
-	bl("closedSingleCasGuardsClear", f.closedSingleCasGuardsClear, "the only write to closed is one CompareAndSwapInt32(&r.closed, 0, 1) that is the condition of the `if` whose body holds every eventList.Clear call")
+	bl("closedOnlyAtomic", f.closedOnlyAtomic, "Reassembler.closed is only ever used through a sync/atomic operation: atomic.F(&r.closed, ..), a method of a sync/atomic type, or a method of a local wrapper type that is a single such operation on the wrapper's own field")
+	bl("closedSingleCasGuardsClear", f.closedSingleCasGuardsClear, "the only write to closed is one compare-and-swap from unset (0/false) to set (1/true), in Reassembler.Close, whose result is the condition of the `if` whose body holds every eventList.Clear call")
 	bl("noCalloutUnderLock", f.noCalloutUnderLock, "no r.stream call, interface-method call or verifYield inside eventList/event methods; the mutex is taken only in the Lock/defer Unlock prologue; locked methods do not call locked methods")
 	q := func(xs []string) string {
 		p := make([]string, len(xs))
@@ -383,7 +383,15 @@ func computeLockFacts(root *pkg) *lockFacts {
 	}
 
 	// ---- F2/F3: the closed flag -------------------------------------------------------------
-	isAtomicCall := func(c *ast.CallExpr) (string, bool) {
+	// An access to the flag is one of three forms, each classified as read / cas01 / write:
+	//   A  atomic.F(&r.closed, ...)              closed is an integer used only through sync/atomic
+	//   B  r.closed.M(...)                       closed has a sync/atomic type (atomic.Bool, atomic.Int32, ...)
+	//   C  r.closed.m(...)                       closed has a package-local wrapper type whose method m does nothing
+	//                                            but return one form-A/B operation on the wrapper's own field
+	//                                            (optionally compared with a constant), and whose fields are touched
+	//                                            nowhere else
+	// cas01 = a compare-and-swap from the zero value (0 / false) to 1 / true whose result is the value of the call.
+	atomicPkgCall := func(c *ast.CallExpr) (string, bool) {
 		s, ok := c.Fun.(*ast.SelectorExpr)
 		if !ok {
 			return "", false
@@ -398,10 +406,123 @@ func computeLockFacts(root *pkg) *lockFacts {
 		}
 		return s.Sel.Name, true
 	}
+	isAtomicType := func(t types.Type) bool {
+		if n, ok := t.(*types.Named); ok && n.Obj().Pkg() != nil && n.Obj().Pkg().Path() == "sync/atomic" {
+			return true
+		}
+		return false
+	}
+	constIs := func(e ast.Expr, want ...string) bool {
+		tv, ok := root.info.Types[e]
+		if !ok || tv.Value == nil {
+			return false
+		}
+		for _, w := range want {
+			if tv.Value.ExactString() == w {
+				return true
+			}
+		}
+		return false
+	}
+	// classify an atomic operation given its name and the arguments after the address / receiver
+	classOf := func(name string, args []ast.Expr) string {
+		switch {
+		case strings.HasPrefix(name, "Load"):
+			return "read"
+		case strings.HasPrefix(name, "CompareAndSwap"):
+			if len(args) == 2 && constIs(args[0], "0", "false") && constIs(args[1], "1", "true") {
+				return "cas01"
+			}
+			return "write"
+		default:
+			return "write"
+		}
+	}
+	// opOn: if call c is a form-A/B operation on the variable `on`, its class; "" otherwise
+	opOn := func(c *ast.CallExpr, on types.Object) string {
+		if name, ok := atomicPkgCall(c); ok && len(c.Args) > 0 {
+			if u, ok := c.Args[0].(*ast.UnaryExpr); ok && u.Op == token.AND {
+				if sel, ok := u.X.(*ast.SelectorExpr); ok && root.info.Uses[sel.Sel] == on {
+					return classOf(name, c.Args[1:])
+				}
+			}
+			return ""
+		}
+		if ms, ok := c.Fun.(*ast.SelectorExpr); ok {
+			if sel, ok := ms.X.(*ast.SelectorExpr); ok && root.info.Uses[sel.Sel] == on {
+				if v, ok := on.(*types.Var); ok && isAtomicType(v.Type()) {
+					return classOf(ms.Sel.Name, c.Args)
+				}
+			}
+		}
+		return ""
+	}
+	// wrapper methods (form C): method object -> class
+	wrapperClass := map[types.Object]string{}
+	wrapperOK := true
+	if cv, ok := closedVar.(*types.Var); ok {
+		if named, ok := cv.Type().(*types.Named); ok && named.Obj().Pkg() == root.tpkg {
+			if st, ok := named.Underlying().(*types.Struct); ok {
+				fields := map[types.Object]bool{}
+				for i := 0; i < st.NumFields(); i++ {
+					fields[st.Field(i)] = true
+				}
+				for _, x := range fns {
+					if x.recvType != named.Obj().Name() {
+						// the wrapper's fields must not be touched outside its methods
+						ast.Inspect(x.decl.Body, func(n ast.Node) bool {
+							if sel, ok := n.(*ast.SelectorExpr); ok && fields[root.info.Uses[sel.Sel]] {
+								wrapperOK = false
+								f.fail(&f.closedOnlyAtomic, "%s touches a field of %s outside its methods (%s)", x.decl.Name.Name, named.Obj().Name(), root.fset.Position(n.Pos()))
+							}
+							return true
+						})
+						continue
+					}
+					// method body: a single `return <op>` or `return <op> == const`, or a single `<op>` statement
+					cls := ""
+					if len(x.decl.Body.List) == 1 {
+						var e ast.Expr
+						switch st := x.decl.Body.List[0].(type) {
+						case *ast.ReturnStmt:
+							if len(st.Results) == 1 {
+								e = st.Results[0]
+							}
+						case *ast.ExprStmt:
+							e = st.X
+						}
+						direct := true
+						if be, ok := e.(*ast.BinaryExpr); ok && (be.Op == token.EQL || be.Op == token.NEQ) {
+							if tv, ok := root.info.Types[be.Y]; ok && tv.Value != nil {
+								e, direct = be.X, false
+							}
+						}
+						if c, ok := e.(*ast.CallExpr); ok {
+							for fld := range fields {
+								if k := opOn(c, fld); k != "" {
+									cls = k
+									if k == "cas01" && !direct {
+										cls = "write" // the result of the CAS must be the result of the method
+									}
+								}
+							}
+						}
+					}
+					if cls == "" {
+						wrapperOK = false
+						f.fail(&f.closedOnlyAtomic, "method %s.%s is not a single sync/atomic operation on the wrapper's field", named.Obj().Name(), x.decl.Name.Name)
+					} else if x.obj != nil {
+						wrapperClass[x.obj] = cls
+					}
+				}
+			}
+		}
+	}
+	_ = wrapperOK
 	type closedUse struct {
 		fn   *fn
 		call *ast.CallExpr
-		name string
+		name string      // read | cas01 | write
 		ifSt *ast.IfStmt // the if statement whose condition is exactly this call
 	}
 	var uses []closedUse
@@ -417,26 +538,39 @@ func computeLockFacts(root *pkg) *lockFacts {
 			if s, ok := n.(*ast.SelectorExpr); ok {
 				if root.info.Uses[s.Sel] == closedVar {
 					f.numClosedAccesses++
-					okUse := false
-					// expected shape: CallExpr(atomic.X){ UnaryExpr(&){ SelectorExpr } as Args[0] }
+					cls := ""
+					var call *ast.CallExpr
+					depth := 0
 					if len(stack) >= 2 {
+						// form A: CallExpr(atomic.X){ UnaryExpr(&){ SelectorExpr } as Args[0] }
 						if u, ok := stack[len(stack)-1].(*ast.UnaryExpr); ok && u.Op == token.AND && u.X == n {
 							if c, ok := stack[len(stack)-2].(*ast.CallExpr); ok && len(c.Args) > 0 && c.Args[0] == u {
-								if name, ok := isAtomicCall(c); ok {
-									okUse = true
-									cu := closedUse{fn: x, call: c, name: name}
-									if len(stack) >= 3 {
-										if is, ok := stack[len(stack)-3].(*ast.IfStmt); ok && is.Cond == c {
-											cu.ifSt = is
-										}
-									}
-									uses = append(uses, cu)
+								if k := opOn(c, closedVar); k != "" {
+									cls, call, depth = k, c, 3
+								}
+							}
+						}
+						// forms B and C: CallExpr{ Fun: SelectorExpr{ X: r.closed, Sel: M } }
+						if ms, ok := stack[len(stack)-1].(*ast.SelectorExpr); ok && ms.X == n {
+							if c, ok := stack[len(stack)-2].(*ast.CallExpr); ok && c.Fun == ms {
+								if k := opOn(c, closedVar); k != "" {
+									cls, call, depth = k, c, 3
+								} else if k, ok := wrapperClass[root.info.Uses[ms.Sel]]; ok {
+									cls, call, depth = k, c, 3
 								}
 							}
 						}
 					}
-					if !okUse {
-						f.fail(&f.closedOnlyAtomic, "%s uses r.closed other than as &r.closed in a sync/atomic call (%s)", x.decl.Name.Name, root.fset.Position(n.Pos()))
+					if cls == "" {
+						f.fail(&f.closedOnlyAtomic, "%s uses r.closed other than through a sync/atomic operation (%s)", x.decl.Name.Name, root.fset.Position(n.Pos()))
+					} else {
+						cu := closedUse{fn: x, call: call, name: cls}
+						if len(stack) >= depth {
+							if is, ok := stack[len(stack)-depth].(*ast.IfStmt); ok && is.Cond == ast.Expr(call) {
+								cu.ifSt = is
+							}
+						}
+						uses = append(uses, cu)
 					}
 				}
 				if callee := byObj[root.info.Uses[s.Sel]]; callee != nil && callee.recvType == "eventList" && callee.decl.Name.Name == "Clear" {
@@ -458,32 +592,23 @@ func computeLockFacts(root *pkg) *lockFacts {
 	f.numClearCalls = len(clearCalls)
 	var writes []closedUse
 	for _, u := range uses {
-		if !strings.HasPrefix(u.name, "Load") {
+		if u.name != "read" {
 			writes = append(writes, u)
 		}
 	}
 	f.numClosedWrites = len(writes)
 	switch {
 	case len(writes) != 1:
-		f.fail(&f.closedSingleCasGuardsClear, "%d writes to r.closed through sync/atomic, want exactly one CompareAndSwapInt32", len(writes))
-	case writes[0].name != "CompareAndSwapInt32":
-		f.fail(&f.closedSingleCasGuardsClear, "the write to r.closed is atomic.%s, not CompareAndSwapInt32", writes[0].name)
+		f.fail(&f.closedSingleCasGuardsClear, "%d atomic writes to r.closed, want exactly one compare-and-swap from unset to set", len(writes))
+	case writes[0].name != "cas01":
+		f.fail(&f.closedSingleCasGuardsClear, "the write to r.closed is not a compare-and-swap from the zero value to 1/true whose result is used")
 	default:
 		w := writes[0]
-		old, ok1 := int64(0), false
-		nw, ok2 := int64(0), false
-		if len(w.call.Args) == 3 {
-			old, ok1 = root.exprInt(w.call.Args[1])
-			nw, ok2 = root.exprInt(w.call.Args[2])
-		}
-		if !ok1 || !ok2 || old != 0 || nw != 1 {
-			f.fail(&f.closedSingleCasGuardsClear, "the CompareAndSwapInt32 on r.closed is not (…, 0, 1)")
-		}
 		if w.fn.recvType != "Reassembler" || w.fn.decl.Name.Name != "Close" {
-			f.fail(&f.closedSingleCasGuardsClear, "the CompareAndSwapInt32 on r.closed is in %s, not in Reassembler.Close", w.fn.decl.Name.Name)
+			f.fail(&f.closedSingleCasGuardsClear, "the compare-and-swap on r.closed is in %s, not in Reassembler.Close", w.fn.decl.Name.Name)
 		}
 		if w.ifSt == nil {
-			f.fail(&f.closedSingleCasGuardsClear, "the CompareAndSwapInt32 on r.closed is not the condition of an if statement")
+			f.fail(&f.closedSingleCasGuardsClear, "the compare-and-swap on r.closed is not the condition of an if statement")
 		} else {
 			if len(clearCalls) == 0 {
 				f.fail(&f.closedSingleCasGuardsClear, "no call of eventList.Clear found")
@@ -496,7 +621,7 @@ func computeLockFacts(root *pkg) *lockFacts {
 					}
 				}
 				if !inside {
-					f.fail(&f.closedSingleCasGuardsClear, "a call of eventList.Clear (%s) is not inside the body of `if atomic.CompareAndSwapInt32(&r.closed, 0, 1)`", root.fset.Position(clearCalls[i].Pos()))
+					f.fail(&f.closedSingleCasGuardsClear, "a call of eventList.Clear (%s) is not inside the body of the `if` whose condition is the compare-and-swap on r.closed", root.fset.Position(clearCalls[i].Pos()))
 				}
 			}
 		}
